@@ -439,6 +439,39 @@ def check_history(calls, res):
             return
 
 
+def check_rules_aliasing(res):
+    """a caller that edits the list it got from get_builtin_conversion_rules() (inserts its own rule,
+    changes an attribute of a returned rule object) configures its own encoder only: encoders built
+    afterwards from the built-in names still follow the built-in tables"""
+    import re as _re
+    from pylatexenc.latexencode import (get_builtin_conversion_rules, UnicodeToLatexConversionRule,
+                                        RULE_REGEX, UnicodeToLatexEncoder)
+    samples = ['a\u00e9b', 'x \u221e y', '\u00fc%\u2014', 'a b', '\u00e9\u00e9a']
+    for name in ('defaults', 'unicode-xml'):
+        for step in ('before', 'insert-own-rule', 'set-rule-protection', 'clear-list'):
+            rules = get_builtin_conversion_rules(name)
+            if step == 'insert-own-rule':
+                rules.insert(0, UnicodeToLatexConversionRule(
+                    RULE_REGEX, [(_re.compile('[a\u00e9\u221e]'), 'OWN')]))
+                own = UnicodeToLatexEncoder(conversion_rules=rules, unknown_char_warning=False)
+                res.case()
+                if 'OWN' not in own.unicode_to_latex('a'):
+                    res.fail('c04:own-rule-not-applied', 'a rule inserted at the front of the list '
+                             'returned by get_builtin_conversion_rules(%r) is not applied' % name,
+                             {'kind': 'rules-aliasing'})
+            elif step == 'set-rule-protection':
+                for r in rules:
+                    r.replacement_latex_protection = 'braces-all'
+            elif step == 'clear-list':
+                del rules[:]
+            for s in samples:
+                for prot in ('braces', 'none'):
+                    cfg = {'rules': [{'type': 'builtin', 'name': name}], 'protection': prot,
+                           'policy': 'keep', 'non_ascii_only': False}
+                    check_pair(s, cfg, res, {'kind': 'rules-aliasing', 'step': step, 'name': name})
+            res.label('rules-aliasing:' + step)
+
+
 def plan(tier, seed):
     n, nconc, npart, nhist = (16000, 8000, 9600, 640) if tier == 'quick' else \
         (128000, 64000, 96000, 6400)
@@ -447,13 +480,14 @@ def plan(tier, seed):
     shards += [('partial', npart // NSHARDS, seed * 1000 + 200 + k) for k in range(NSHARDS)]
     shards += [('history', nhist // NSHARDS, seed * 1000 + 300 + k) for k in range(NSHARDS)]
     shards += [('builtin-singles', k) for k in range(NSHARDS)]
+    shards += [('rules-aliasing',)]
     return {'shards': shards, 'bounds': {'pairs': n, 'concat': nconc, 'partial': npart,
                                          'histories': nhist, 'max_string': 30},
             'required_classes': ['rule:dict', 'rule:regex', 'rule:call', 'rule:builtin',
                                  'policy:fail', 'policy:unihex', 'outcome:fail-raised',
                                  'non-trivial', 'concat-law', 'partial:modelled',
                                  'partial:malformed-token-totality-only', 'history-call',
-                                 'builtin-single']}
+                                 'builtin-single', 'rules-aliasing:insert-own-rule']}
 
 
 def run_shard(shard, res):
@@ -461,7 +495,9 @@ def run_shard(shard, res):
     kind = shard[0]
     tables = builtin_tables()
     extra = [chr(o) for o in sorted(set(tables['defaults']) | set(tables['unicode-xml']))]
-    if kind == 'pairs':
+    if kind == 'rules-aliasing':
+        check_rules_aliasing(res)
+    elif kind == 'pairs':
         _, n, seed = shard
 
         def one(x):
@@ -520,7 +556,9 @@ def run_shard(shard, res):
 
 def check_case(case, res):
     k = case['kind']
-    if k == 'pair':
+    if k == 'rules-aliasing':
+        check_rules_aliasing(res)
+    elif k == 'pair':
         check_pair(case['s'], case['cfg'], res, case)
     elif k == 'concat':
         check_concat(case['a'], case['b'], case['opts'], res)
